@@ -7,6 +7,7 @@ import SlocModel.Driver.Baseline
 import SlocModel.Driver.Structure
 import SlocModel.Driver.AtomicWrite
 import SlocModel.Driver.Remote
+import SlocModel.Driver.Cache
 open SlocModel.Driver
 
 def dispatch (line : String) : String :=
@@ -30,6 +31,7 @@ def dispatch (line : String) : String :=
       | "baseline-step" => handleBaselineStep args
       | "save-crash" => handleSaveCrash args
       | "fetch-seq" => handleFetchSeq args
+      | "cache-hist" => handleCacheHist args
       | "struct-dir" => handleStructDir args
       | "walk" => handleWalk args
       | "base-depth" => handleBaseDepth args
